@@ -39,6 +39,7 @@ func Fail(msg string) {
 type Config struct {
 	Name        string
 	Sleep       bool // sleep sets (partial-order reduction) on top of the state cache; unbounded searches only
+	AltCost     bool // every alternative of one thread beyond its first (rendezvous partner, ready select case) costs one deviation too: with Delay, bound 0 is then exactly one execution
 	Delay       bool // delay bounding (every skipped runnable thread costs 1) instead of preemption bounding
 	Bound       int  // maximal number of deviations (preemptions, early timers, non-default pool choices); <0 unbounded
 	TimersLive  bool // timers may fire (early = one deviation, at quiescence free); false = timers never fire
@@ -167,9 +168,13 @@ func runOne(cfg *Config, prefix []int, visited map[uint64]cacheEntry, body func(
 			lt := s.transitionsOf(last, true)
 			if len(lt) > 0 {
 				lastEnabled = true
-				for _, tr := range lt {
+				for i, tr := range lt {
 					trs = append(trs, tr)
-					costs = append(costs, tr.extra)
+					c := tr.extra
+					if cfg.AltCost && i > 0 && !(tr.kind == trGeneric && tr.t.pend.FreeAlts) {
+						c++
+					}
+					costs = append(costs, c)
 				}
 				group = 1
 			}
@@ -189,9 +194,12 @@ func runOne(cfg *Config, prefix []int, visited map[uint64]cacheEntry, body func(
 			if len(tt) == 0 {
 				continue
 			}
-			for _, tr := range tt {
+			for i, tr := range tt {
 				trs = append(trs, tr)
 				c := tr.extra
+				if cfg.AltCost && i > 0 && !(tr.kind == trGeneric && tr.t.pend.FreeAlts) {
+					c++
+				}
 				if cfg.Delay {
 					c += group // delay bounding: every thread skipped costs one
 				} else if lastEnabled {
